@@ -39,6 +39,7 @@ fn dispatch(prop: &str, rec: &mut Rec) {
         "C15" => checks::c15::run(rec),
         "C16" => checks::c16::run(rec),
         "C17" => checks::c17::run(rec),
+        "C18" => checks::c18::run(rec),
         "C19" => checks::c19::run(rec),
         "C11" => checks::c11::run(rec),
         _ => {
@@ -103,6 +104,9 @@ fn main() {
         rec.wall_cap_s = c;
     }
     match mode.as_str() {
+        "c18-digest" => {
+            checks::c18::print_digests(seed, rec.only.as_deref());
+        }
         "run" => {
             dispatch(&prop, &mut rec);
             rec.finish(out.as_deref());
